@@ -627,6 +627,23 @@ def extract(fstate):
     return tx_ser_witness(tx) if any_wit else tx_ser_legacy(tx)
 
 
+def normalise_utxo(state):
+    """a witness UTXO record next to a consistent full previous transaction is redundant: states are compared
+    modulo it (BIP174 lets a serialiser keep either or both)"""
+    st = dict(state)
+    tx = unsigned_tx_parse(state["tx"])
+    ins = []
+    for k, i in enumerate(state["inputs"]):
+        if i["non_witness_utxo"] is not None and i["witness_utxo"] is not None:
+            prev, _ = tx_parse(i["non_witness_utxo"])
+            v = tx["ins"][k]["vout"]
+            if v < len(prev["outs"]) and txout_ser(prev["outs"][v]["amount"], prev["outs"][v]["spk"]) == i["witness_utxo"]:
+                i = dict(i, witness_utxo=None)
+        ins.append(i)
+    st["inputs"] = ins
+    return st
+
+
 def normalise_final(state):
     """a recorded-but-empty final scriptSig carries no information (compare finalized states modulo it)"""
     st = dict(state)
